@@ -587,10 +587,22 @@ func parseRaceLogs(prefix string) []raceReport {
 				keys = append(keys, top)
 			}
 			sort.Strings(keys)
+			// the racing accesses themselves are the innermost frames of the two
+			// stacks: when both are harness code the race is the harness's own
+			// (reported as inconclusive), whatever library frames lie below
+			innerHarness := 0
+			for i, part := range parts {
+				if i >= 2 {
+					break
+				}
+				if fr := frameRe.FindAllStringSubmatch(part, 1); len(fr) > 0 && strings.HasPrefix(fr[0][1], "verifharness/") {
+					innerHarness++
+				}
+			}
 			out = append(out, raceReport{
 				key:   strings.Join(keys, " <-> "),
 				text:  strings.TrimSpace(firstLines(strings.TrimSpace(blk), 70)),
-				genql: strings.Contains(blk, "vedadiyan/genql"),
+				genql: strings.Contains(blk, "vedadiyan/genql") && innerHarness < 2,
 			})
 		}
 	}
